@@ -19,37 +19,43 @@ NArr == IF Mode = "given" THEN 3 ELSE 2
 AB == {"a", "b"}
 PushVals == {Num(2), Num(10), Str("b"), Null, Bool(TRUE)}
 FindVals == {Num(2), Str("b"), Null, Num(0), Num(1)}
-Call0(m, a) == Call(m, a, <<>>)
-Call1(m, a, x) == Call(m, a, <<x>>)
-Inner(y) == {Call0("pop", y), Call0("popfirst", y), Call0("length", y), Call0("sort", y), Get(y, 0), Get(y, -1),
-             Call1("push", y, Lit(Num(2))), Call1("push", y, Lit(Str("b"))), Call1("contains", y, Lit(Num(2)))}
+Call0(m, a) == LCall(m, a, <<>>)
+Call1(m, a, x) == LCall(m, a, <<x>>)
+Inner(y) == {Call0("pop", y), Call0("popfirst", y), Call0("length", y), Call0("sort", y), LGet(y, 0), LGet(y, -1),
+             Call1("push", y, LLit(Num(2))), Call1("push", y, LLit(Str("b"))), Call1("contains", y, LLit(Num(2)))}
 Big ==
-  {SExpr(Call1("push", a, Lit(v))) : a \in AB, v \in PushVals}
+  {SExpr(Call1("push", a, LLit(v))) : a \in AB, v \in PushVals}
   \cup {SExpr(Call0(m, a)) : m \in {"pop", "popfirst", "length", "sort"}, a \in AB}
-  \cup {SExpr(Call1("contains", a, Lit(v))) : a \in AB, v \in FindVals}
-  \cup {SExpr(Get(a, i)) : a \in AB, i \in {0, 1, -1, -3}}
+  \cup {SExpr(Call1("contains", a, LLit(v))) : a \in AB, v \in FindVals}
+  \cup {SExpr(LGet(a, i)) : a \in AB, i \in {0, 1, -1, -3}}
   \cup {SSet(a, i, Num(7)) : a \in AB, i \in {0, 2, -1, -3}}
   \cup {SExpr(Call1(m, a, x)) : m \in {"push", "contains"}, a \in AB, x \in UNION {Inner(y) : y \in AB}}
   \cup {SExpr(Call1("push", a, Call1("push", b, Call0("pop", a)))) : a, b \in AB}
   \cup {SExpr(Call1("contains", a, Call1("contains", b, Call0("length", a)))) : a, b \in AB}
 Small ==
-  {SExpr(Call1("push", a, Lit(v))) : a \in AB, v \in {Num(2), Str("b")}}
-  \cup {SExpr(Call1("push", "a", Lit(v))) : v \in {Num(10), Null, Bool(TRUE)}}
+  {SExpr(Call1("push", a, LLit(v))) : a \in AB, v \in {Num(2), Str("b")}}
+  \cup {SExpr(Call1("push", "a", LLit(v))) : v \in {Num(10), Null, Bool(TRUE)}}
   \cup {SExpr(Call0(m, "a")) : m \in {"pop", "popfirst", "length", "sort"}}
   \cup {SExpr(Call0("popfirst", "b")), SExpr(Call0("sort", "b"))}
-  \cup {SExpr(Call1("contains", "a", Lit(v))) : v \in {Num(2), Null, Num(0)}}
-  \cup {SExpr(Get("a", -1)), SExpr(Get("a", -3)), SSet("a", 0, Num(7)), SSet("a", 2, Num(7)), SSet("b", -1, Num(7))}
-  \cup {SExpr(Call1("push", "a", Call1("push", "b", Lit(Num(2))))), SExpr(Call1("push", "b", Call0("pop", "a"))),
+  \cup {SExpr(Call1("contains", "a", LLit(v))) : v \in {Num(2), Null, Num(0)}}
+  \cup {SExpr(LGet("a", -1)), SExpr(LGet("a", -3)), SSet("a", 0, Num(7)), SSet("a", 2, Num(7)), SSet("b", -1, Num(7))}
+  \cup {SExpr(Call1("push", "a", Call1("push", "b", LLit(Num(2))))), SExpr(Call1("push", "b", Call0("pop", "a"))),
         SExpr(Call1("push", "a", Call0("popfirst", "a"))), SExpr(Call1("contains", "a", Call0("length", "b"))),
-        SExpr(Call1("contains", "a", Call1("contains", "b", Lit(Num(2))))),
+        SExpr(Call1("contains", "a", Call1("contains", "b", LLit(Num(2))))),
         SExpr(Call1("push", "a", Call1("push", "b", Call0("pop", "a")))) }
 
 -----------------------------------------------------------------------------
 Init0 == LS(<<ArrC(<<Num(10), Num(2)>>), ArrC(<<Str("b")>>), ArrC(<<>>)>>, {}, {})
 
 (* spec-level laws of the ideal list, evaluated on every step *)
-V(name, bad) == IF bad THEN {name} ELSE {}
+\* a law: where its antecedent holds its consequence must; chk records that it was exercised (vacuity)
+L(name, ante, conseq) == [bad |-> IF ante /\ ~conseq THEN {name} ELSE {}, chk |-> IF ante THEN {name} ELSE {}]
+LAll(ls) == [bad |-> UNION {l.bad : l \in ls}, chk |-> UNION {l.chk : l \in ls}]
+NoLaw == [bad |-> {}, chk |-> {}]
 Count(s, v) == Cardinality({i \in 1..Len(s) : s[i] = v})
+\* position in srt of the occurrence of old[i] that corresponds to it (the k-th equal value stays the k-th)
+PosOf(srt, old, i) == CHOOSE x \in 1..Len(srt) :
+   srt[x] = old[i] /\ Cardinality({y \in 1..x : srt[y] = old[i]}) = Cardinality({y \in 1..i : old[y] = old[i]})
 IsTop(st) == st.op = "expr" /\ st.x.e = "call" /\ (st.x.args = <<>> \/ st.x.args[1].e = "lit")
 StepLaws(s, st, r) ==
   LET top == IsTop(st) /\ r.status = "ok"
@@ -61,45 +67,50 @@ StepLaws(s, st, r) ==
       others == \A k \in Named \ {id} : r.s.h[k] = s.h[k]
       keys == SortKey(old)
       srt == r.s.h[r.res.id].items
-  IN
-  V("push", top /\ m = "push" /\ ~(new = Append(old, arg) /\ r.res = Arr(id) /\ others))
-  \cup V("pop", top /\ m = "pop" /\ ~(others /\ IF old = <<>> THEN new = old /\ r.res = Null
-                                             ELSE new \o <<r.res>> = old))
-  \cup V("popfirst", top /\ m = "popfirst" /\ ~(others /\ IF old = <<>> THEN new = old /\ r.res = Null
-                                             ELSE <<r.res>> \o new = old))
-  \cup V("length", top /\ m = "length" /\ ~(r.s.h = s.h /\ r.res = Num(Len(old))))
-  \cup V("poppush", \E v \in PushVals, k \in Named :
-            LET p == ListPush(s.h, k, v) IN ListPop(p.h, k).res # v \/ ListPop(p.h, k).h # s.h)
-  \cup V("fifo", \E v, w \in PushVals, k \in Named : s.h[k].items = <<>> /\
-            LET p == ListPush(ListPush(s.h, k, v).h, k, w)
-                q == ListPopFirst(p.h, k)
-            IN q.res # v \/ ListPopFirst(q.h, k).res # w \/ ListPopFirst(q.h, k).h # s.h)
-  \cup V("sort", top /\ m = "sort" /\
-            ~(/\ r.s.h[id] = s.h[id] /\ others /\ r.res.t = "arr" /\ r.res.id \notin Named
-              /\ Len(srt) = Len(old) /\ \A v \in {old[i] : i \in 1..Len(old)} : Count(srt, v) = Count(old, v)
-              /\ LET k2 == SortKey(srt) IN \A i \in 1..(Len(srt) - 1) : k2[i] <= k2[i + 1]
-              \* stable: of two elements with equal keys the one that came first stays first
-              /\ \A i, j \in 1..Len(old) : (i < j /\ keys[i] = keys[j] /\ old[i] # old[j]) =>
-                   LET pi == CHOOSE x \in 1..Len(srt) : srt[x] = old[i] /\ Cardinality({y \in 1..x : srt[y] = old[i]}) = Cardinality({y \in 1..i : old[y] = old[i]})
-                       pj == CHOOSE x \in 1..Len(srt) : srt[x] = old[j] /\ Cardinality({y \in 1..x : srt[y] = old[j]}) = Cardinality({y \in 1..j : old[y] = old[j]})
-                   IN pi < pj))
-  \cup V("contains", IsTop(st) /\ m = "contains" /\ r.status \in {"ok", "error"} /\
-            LET hit == {i \in 1..Len(old) : CmpEq(arg, old[i]).ok /\ CmpEq(arg, old[i]).eq}
-                bad == {i \in 1..Len(old) : ~CmpEq(arg, old[i]).ok}
-                first(S) == IF S = {} THEN Len(old) + 1 ELSE SetMin(S)
-            IN ~(IF first(bad) < first(hit) THEN r.status = "error"
-                 ELSE r.status = "ok" /\ r.res = Bool(hit # {}) /\ r.s.h = s.h))
-  \cup V("get", st.op = "expr" /\ st.x.e = "get" /\ r.status = "ok" /\
-            LET a == s.h[Id(st.x.a)].items IN ~(r.s = s /\ r.res = a[Norm(Len(a), st.x.i) + 1]))
-  \cup V("neg", st.op = "expr" /\ st.x.e = "get" /\ st.x.i < 0 /\
-            LET a == s.h[Id(st.x.a)].items IN (r.status = "error") # (Len(a) + st.x.i < 0))
-  \cup V("set", st.op = "set" /\ r.status = "ok" /\
-            LET a == s.h[Id(st.a)].items
-                b == r.s.h[Id(st.a)].items
-                j == Norm(Len(a), st.i)
-            IN ~(/\ b[j + 1] = st.v /\ Len(b) = (IF j + 1 > Len(a) THEN j + 1 ELSE Len(a))
-                 /\ \A i \in 1..Len(b) : i # j + 1 => b[i] = (IF i <= Len(a) THEN a[i] ELSE Null)
-                 /\ \A k \in Named \ {Id(st.a)} : r.s.h[k] = s.h[k]))
+  IN LAll({
+  L("push", top /\ m = "push", new = Append(old, arg) /\ r.res = Arr(id) /\ others),
+  L("pop", top /\ m = "pop", others /\ IF old = <<>> THEN new = old /\ r.res = Null ELSE new \o <<r.res>> = old),
+  L("popfirst", top /\ m = "popfirst", others /\ IF old = <<>> THEN new = old /\ r.res = Null ELSE <<r.res>> \o new = old),
+  L("length", top /\ m = "length", r.s.h = s.h /\ r.res = Num(Len(old))),
+  \* pop after push returns the pushed value and restores the array
+  L("poppush", TRUE, \A v \in PushVals, k \in Named :
+        LET p == ListPush(s.h, k, v) IN ListPop(p.h, k).res = v /\ ListPop(p.h, k).h = s.h),
+  \* first in, first out
+  L("fifo", \E k \in Named : s.h[k].items = <<>>, \A v, w \in PushVals, k \in Named : s.h[k].items = <<>> =>
+        LET p == ListPush(ListPush(s.h, k, v).h, k, w)
+            q == ListPopFirst(p.h, k)
+        IN q.res = v /\ ListPopFirst(q.h, k).res = w /\ ListPopFirst(q.h, k).h = s.h),
+  \* sort: receiver untouched, a fresh array, a permutation, ordered by the key, stable
+  L("sort", top /\ m = "sort",
+        /\ r.s.h[id] = s.h[id] /\ others /\ r.res.t = "arr" /\ r.res.id \notin Named
+        /\ Len(srt) = Len(old) /\ \A v \in {old[i] : i \in 1..Len(old)} : Count(srt, v) = Count(old, v)
+        /\ LET k2 == SortKey(srt) IN \A i \in 1..(Len(srt) - 1) : k2[i] <= k2[i + 1]
+        /\ \A i, j \in 1..Len(old) : (i < j /\ keys[i] = keys[j] /\ old[i] # old[j]) => PosOf(srt, old, i) < PosOf(srt, old, j)),
+  L("sortstable", top /\ m = "sort" /\ \E i, j \in 1..Len(old) : i < j /\ keys[i] = keys[j] /\ old[i] # old[j], TRUE),
+  L("sortnumeric", top /\ m = "sort" /\ AllNums(old) /\ \E i, j \in 1..Len(old) : old[i].n < old[j].n /\ StrRank(StrOf(old[j])) < StrRank(StrOf(old[i])),
+        \A i \in 1..(Len(srt) - 1) : srt[i].n <= srt[i + 1].n),
+  \* contains: == against each element in order
+  L("contains", IsTop(st) /\ m = "contains" /\ r.status \in {"ok", "error"},
+        LET hit == {i \in 1..Len(old) : CmpEq(arg, old[i]).ok /\ CmpEq(arg, old[i]).eq}
+            bad == {i \in 1..Len(old) : ~CmpEq(arg, old[i]).ok}
+            first(S) == IF S = {} THEN Len(old) + 1 ELSE SetMin(S)
+        IN IF first(bad) < first(hit) THEN r.status = "error"
+           ELSE r.status = "ok" /\ r.res = Bool(hit # {}) /\ r.s.h = s.h),
+  L("containserr", IsTop(st) /\ m = "contains" /\ r.status = "error", TRUE),
+  L("get", st.op = "expr" /\ st.x.e = "get" /\ r.status = "ok",
+        LET a == s.h[Id(st.x.a)].items IN r.s = s /\ r.res = a[Norm(Len(a), st.x.i) + 1]),
+  L("neg", st.op = "expr" /\ st.x.e = "get" /\ st.x.i < 0,
+        LET a == s.h[Id(st.x.a)].items IN (r.status = "error") = (Len(a) + st.x.i < 0)),
+  L("set", st.op = "set" /\ r.status = "ok",
+        LET a == s.h[Id(st.a)].items
+            b == r.s.h[Id(st.a)].items
+            j == Norm(Len(a), st.i)
+        IN /\ b[j + 1] = st.v /\ Len(b) = (IF j + 1 > Len(a) THEN j + 1 ELSE Len(a))
+           /\ \A i \in 1..Len(b) : i # j + 1 => b[i] = (IF i <= Len(a) THEN a[i] ELSE Null)
+           /\ \A k \in Named \ {Id(st.a)} : r.s.h[k] = s.h[k]),
+  \* a nested call on the other array leaves the outer call's receiver the outer one
+  L("nested", st.op = "expr" /\ st.x.e = "call" /\ st.x.args # <<>> /\ st.x.args[1].e = "call" /\ r.status = "ok" /\ m = "push",
+        Len(new) >= 1 /\ r.res = Arr(id)) })
 
 -----------------------------------------------------------------------------
 VARIABLES hist, cur, sts, out, fin, law, idx
@@ -108,25 +119,25 @@ vars == <<hist, cur, sts, out, fin, law, idx>>
 Apply2(h, c, g, o, st, rI) ==
   LET rD == IF g["D"] # "ok" THEN ER(c["D"], Null, IF g["D"] = "wild" THEN "wild" ELSE "dead")
             ELSE LET r == Exec(c["D"], st, TRUE) IN IF r.status = "open" THEN [r EXCEPT !.status = "wild"] ELSE r
-      eI == Expect(rI.s, st, rI.res, rI.status, NArr)
-      eD == Expect(rD.s, st, rD.res, rD.status, NArr)
+      eI == LExpect(rI.s, st, rI.res, rI.status, NArr)
+      eD == LExpect(rD.s, st, rD.res, rD.status, NArr)
   IN [hist |-> Append(h, st),
       cur |-> [I |-> rI.s, D |-> rD.s],
       sts |-> [I |-> rI.status, D |-> rD.status],
       out |-> Append(o, [exp |-> eI, dev |-> IF eD = eI THEN <<>> ELSE <<eD>>]),
       fin |-> rI.status # "ok",
       law |-> StepLaws(c["I"], st, rI)]
-Start == [hist |-> <<>>, cur |-> [I |-> Init0, D |-> Init0], sts |-> [I |-> "ok", D |-> "ok"], out |-> <<>>, fin |-> FALSE, law |-> {}]
+Start == [hist |-> <<>>, cur |-> [I |-> Init0, D |-> Init0], sts |-> [I |-> "ok", D |-> "ok"], out |-> <<>>, fin |-> FALSE, law |-> NoLaw]
 
 RECURSIVE RunGiven(_, _)
 RunGiven(s, ops) ==
   IF ops = <<>> \/ s.fin THEN s
   ELSE LET rI == Exec(s.cur["I"], Head(ops), FALSE) IN
        IF rI.status \notin {"ok", "error"} THEN RunGiven(s, Tail(ops))
-       ELSE LET t == Apply2(s.hist, s.cur, s.sts, s.out, Head(ops), rI) IN RunGiven([t EXCEPT !.law = @ \cup s.law], Tail(ops))
+       ELSE LET t == Apply2(s.hist, s.cur, s.sts, s.out, Head(ops), rI) IN RunGiven([t EXCEPT !.law = LAll({@, s.law})], Tail(ops))
 Given == IF Mode = "given" THEN JsonDeserialize("given.json") ELSE <<>>
 
-Init == /\ hist = <<>> /\ cur = Start.cur /\ sts = Start.sts /\ out = <<>> /\ fin = FALSE /\ law = {}
+Init == /\ hist = <<>> /\ cur = Start.cur /\ sts = Start.sts /\ out = <<>> /\ fin = FALSE /\ law = NoLaw
         /\ idx \in (IF Mode = "given" THEN 1..Len(Given) ELSE {0})
 NextGiven ==
   /\ Mode = "given" /\ hist = <<>> /\ ~fin
@@ -141,7 +152,7 @@ NextOp ==
        /\ LET s == Apply2(hist, cur, sts, out, st, rI) IN
           /\ hist' = s.hist /\ cur' = s.cur /\ sts' = s.sts /\ out' = s.out /\ law' = s.law /\ fin' = s.fin
 Next == NextGiven \/ NextOp
-Laws == law = {}
+Laws == law.bad = {}
 
 RECURSIVE Compact(_)
 Compact(tr) ==
@@ -150,6 +161,6 @@ Compact(tr) ==
     [] OTHER -> "~" \o tr.t
 CompactExp(e) == IF e.st # "ok" THEN e
                  ELSE [st |-> "ok", res |-> Compact(e.res), arrs |-> [k \in 1..Len(e.arrs) |-> Compact(e.arrs[k])], lens |-> e.lens]
-Vec == hist # <<>> => Emit([ops |-> hist, steps |-> [i \in 1..Len(out) |->
+Vec == hist # <<>> => Emit([ops |-> hist, chk |-> law.chk, steps |-> [i \in 1..Len(out) |->
           [exp |-> CompactExp(out[i].exp), dev |-> [k \in 1..Len(out[i].dev) |-> CompactExp(out[i].dev[k])]]]])
 =============================================================================
